@@ -37,6 +37,7 @@ type Program struct {
 	Yacc           []*yaccInfo
 	panicCls       map[*ssa.Function]string
 	writtenFams    map[string]bool
+	sentFields     map[string]bool
 }
 
 func (P *Program) readSrc(name string) []byte {
